@@ -66,12 +66,12 @@ StateFails(e, sr) ==
         \cup Fail("C13_DeletionCompletes", C13_DeletionCompletes(s.job, s.pods, NoKube(s)))
         \cup Fail("C13_TTLEventually", C13_TTLEventually(c, s.job, s.now)))
 
-StepFails(e, p, ps, ed, ud, ta, tlb, li, da) ==
+StepFails(e, p, ps, ed, ud, ta, tlb, li, da, srp) ==
     LET s == e.st  c == e.cfg  dels == Range(e.dels)
         known == li \cup {[name |-> q.name, idx |-> q.idx, retry |-> q.retry] : q \in Mine(p.pods)} IN
          Fail("C08_Order", C08_OrderStep(c, p.pods, s.pods, known))
     \cup Fail("C08_Delay", C08_DelayStep(c, p.pods, s.pods, ps, s.now))
-    \cup Fail("C08_Gates", C08_GatesStep(c, p.pods, s.pods, ps))
+    \cup Fail("C08_Gates", C08_GatesStep(c, p.pods, s.pods, ps, srp))
     \cup Fail("C09_Keep", C09_KeepStep(p.job, s.job))
     \cup Fail("C10_NoLiveAtFinish", C10_NoLiveAtFinishStep(p.job, s.job, s.pods))
     \cup Fail("C11_Monotone", C11_MonotoneStep(p.job, s.job, ed))
@@ -105,7 +105,7 @@ Next ==
            over == /\ s.job.ex /\ s.job.started /\ ~\E q \in Mine(s.pods) : Alive(q)
                    /\ (s.job.adm \/ at \/ (s.job.kill # 0 /\ s.job.kill <= s.now) \/ DecidedTruth(e.cfg, s.pods, EverOf(s), SuccOf(s)))
            da == IF reset THEN 0 ELSE IF doneAt = 0 /\ over THEN s.now ELSE doneAt
-           fs == StateFails(e, sr) \cup (IF reset \/ l = 1 THEN {} ELSE StepFails(e, p, ps, ed, ud, ta, tlb, listed, da))
+           fs == StateFails(e, sr) \cup (IF reset \/ l = 1 THEN {} ELSE StepFails(e, p, ps, ed, ud, ta, tlb, listed, da, succRec))
            \* primary manifestations of the known cache-skew findings taint the rest of the run
            inpass == e.ev \in {"SyncBegin", "Step"}
            \* the pass acted: it issued Pod deletes or a mutating call that took effect
